@@ -1,6 +1,7 @@
 package core
 
 import (
+	"time"
 	"encoding/binary"
 	"encoding/json"
 	"flag"
@@ -85,10 +86,12 @@ func WorkerMain(args []string) int {
 		t.Samples = nil
 		t.Findings = nil
 		// batch-level panic guard (generator bugs): attributed to the batch.
+		t0 := time.Now()
 		t.Case("batch:"+b.Name, []byte(fmt.Sprintf("%s/%d/%d", b.Name, b.Arg, b.N)), func(c *C) {
 			t.Evals-- // the wrapper itself is not an evaluation
 			p.RunBatch(t, b)
 		})
+		t.ObserveMax("slowest-batch-ms:"+b.Name, time.Since(t0).Milliseconds()) // evidence only
 		br := BatchResult{Batch: bi, Name: b.Name, Evals: t.Evals, Cov: t.Cov, Max: t.Max, Samples: t.Samples, Findings: t.Findings, NDist: len(t.Distinct)}
 		buf := make([]byte, 0, 8*len(t.Distinct))
 		var tmp [8]byte
